@@ -39,6 +39,6 @@ PROP = dict(
              cfg={"quick": "MC_Settings_q.cfg", "thorough": "MC_Settings_t.cfg"},
              budget={"quick": 60, "thorough": 420}, maxwalk=2),
         dict(kind="tlc", name="SettingsIdeal", module="Settings",
-             cfg={"quick": "MC_Settings_ideal_q.cfg", "thorough": "MC_Settings_ideal.cfg"}, workers=4),
+             cfg={"quick": None, "thorough": "MC_Settings_ideal.cfg"}, workers=4, tiers=("thorough",)),
     ],
 )
